@@ -224,8 +224,12 @@ def main(ctx):
     lz_jobs = []
     for key in model_keys:
         gj, gpath = graphs_by_src[key]
-        big = [s_ for s_ in graphs.slices(gj, lazy_max) if s_[1] > slice_max]
-        for n, (c, real, name) in enumerate(big[: (2 if quick else 5)]):
+        big = [s_ for s_ in graphs.slices(gj, lazy_max, keep_nested=True) if s_[1] > slice_max]
+        # the gather points of the dynamic protocols first (glyf/gvar after GlyphOrder, kerning after
+        # GatherIrKerning, feature compilation), then the largest others
+        prio = ["Be(GatherBeKerning)", "Be(Glyf)", "Be(Gvar)", "Be(Features)", "Be(Marks)", "Be(GatherIrKerning)"]
+        big.sort(key=lambda s_: (prio.index(s_[2]) if s_[2] in prio else len(prio), -s_[1]))
+        for n, (c, real, name) in enumerate(big[: (4 if quick else 6)]):
             sg = graphs.slice_graph(gj, c)
             if slice_key(sg) in seen_slices:
                 continue
@@ -234,8 +238,8 @@ def main(ctx):
             json.dump(sg, open(sp, "w"))
             lz_jobs.append((key[0], name, real, sp))
     # generated sources first (small graphs that exercise the dynamic parts), smaller slices first
-    lz_jobs.sort(key=lambda j: ("/minifonts/" not in j[0], "own-notdef" not in j[0], j[2]))
-    lz_jobs = lz_jobs[: (7 if quick else 24)]
+    lz_jobs.sort(key=lambda j: ("/minifonts/" not in j[0], j[2]))
+    lz_jobs = lz_jobs[: (12 if quick else 30)]
     common.log("lazy-send model checking of %d larger slices" % len(lz_jobs))
 
     def lazy(job):
